@@ -102,12 +102,26 @@ _TEXT_PROPS = {b"SUMMARY", b"DESCRIPTION", b"LOCATION", b"COMMENT", b"CATEGORIES
                b"TITLE", b"ADR"}
 
 
+_DUR = re.compile(rb"^([+-]?)P(?:(\d+)W)?(?:(\d+)D)?(?:T(?:(\d+)H)?(?:(\d+)M)?(?:(\d+)S)?)?$")
+
+
 def _norm_value(name, value):
+    """Value-level equivalences of RFC 5545 that a re-serialisation may use: the two
+    spellings of the newline escape, the order of recurrence rule parts, and the many
+    spellings of one duration (PT0S = P0D, PT60M = PT1H)."""
     if value is None:
         return None
     if name in _TEXT_PROPS:
         # \N and \n are the same escape (RFC 5545 3.3.11)
         return value.replace(b"\\N", b"\\n")
+    if name in (b"RRULE", b"EXRULE"):
+        return b";".join(sorted(p.strip().upper() for p in value.split(b";") if p.strip()))
+    if name in (b"DURATION", b"TRIGGER", b"REFRESH-INTERVAL"):
+        m = _DUR.match(value.strip())
+        if m and value.strip() not in (b"P", b"-P", b"+P"):
+            sign = -1 if m.group(1) == b"-" else 1
+            w, d, h, mi, sec = (int(x) if x else 0 for x in m.groups()[1:])
+            return b"duration:%d" % (sign * (((w * 7 + d) * 24 + h) * 3600 + mi * 60 + sec))
     return value
 
 
